@@ -188,15 +188,18 @@ public:
         // all the packets that require resending.
         _write_in_progress = true;
 
-        auto new_limit = _svc._stream_context.connack_property(prop::receive_maximum);
-        _limit = new_limit.value_or(MAX_LIMIT);
-        _quota = _limit;
-
         auto write_queue = std::move(_write_queue);
         _svc._replies.resend_unanswered();
 
         for (auto& op : write_queue)
             op.complete(asio::error::try_again);
+
+        // The quota is reset only after the loops above: an operation
+        // cancelled by its caller completes there and returns quota
+        // (throttled_op_done) that belongs to the previous connection.
+        auto new_limit = _svc._stream_context.connack_property(prop::receive_maximum);
+        _limit = new_limit.value_or(MAX_LIMIT);
+        _quota = _limit;
 
         std::stable_sort(_write_queue.begin(), _write_queue.end());
 
